@@ -11,7 +11,9 @@ RULE = ("random Latin / Arabic fonts x category maps (all five values, invalid v
         "mixed-direction repertoires, alternates reached through GSUB) x optional user GDEF block x skipExportGlyphs; default "
         "feature writers, or (one case in four) one list of writer instances handed to two or three successive compiles of "
         "different fonts; plus two-master designspaces with a substitution rule whose replacement glyph carries cursive anchors "
-        "(compileInterpolatableTTFsFromDS / compileVariableTTF with merged layout); non-trivial = the font has categories, carets or cursive anchors; distinct by source digest")
+        "(compileInterpolatableTTFsFromDS / compileVariableTTF with merged layout), and variable fonts whose cursive / caret "
+        "anchors differ between two full masters, with a sparse layer master in between that lacks the anchored glyphs, read "
+        "back at all three locations; non-trivial = the font has categories, carets or cursive anchors; distinct by source digest")
 ASSUMPTIONS = ["without any assigned category feaLib infers the glyph classes from the positioning rules (environment): no clause then"]
 
 
@@ -36,6 +38,14 @@ def cases(tier, seed):
                 d = layout_gen.gdefcurs_font(rng)
                 d.update({"cid": f"c18-{seed}-{k}+{j + 1}", "lib": c["lib"], "writers": c["writers"]})
                 c["then"].append(d)
+        out.append(c)
+    # variable anchors: two full masters whose cursive / caret anchors differ, plus a sparse layer master in between that does
+    # NOT contain the anchored glyphs: at its location the anchors are the blend of the full masters
+    for k in range(10 if tier == "quick" else 120):
+        c = layout_gen.gdefcurs_font(rng)
+        c.pop("kwargs", None)
+        c.update({"cid": f"c18-{seed}-sv{k}", "lib": rng.choice(["ufoLib2", "defcon"]), "writers": "default", "sparseVar": True,
+                  "delta": [rng.randint(-20, 20), rng.randint(-20, 20)], "flavor": rng.choice(["tt", "cff2"])})
         out.append(c)
     # designspace paths: substitution RULES make a glyph reachable from a character without any GSUB rule in the feature file
     for k in range(12 if tier == "quick" else 150):
@@ -91,7 +101,57 @@ def _execute_ds(case):
     return recs
 
 
+def _shift_anchors(ufo, dx, dy):
+    import copy
+
+    u = copy.deepcopy(ufo)
+    for g in u["glyphs"].values():
+        for a in g["anchors"]:
+            a["x"] += dx * 1024
+            a["y"] += dy * 1024
+    return u
+
+
+def _execute_sparse_var(case):
+    import io
+
+    import ufo2ft
+    from fontTools.ttLib import TTFont
+    from fontTools.varLib import instancer
+
+    from .. import dsbuild, project
+
+    dx, dy = case["delta"]
+    u0 = case["ufo"]
+    umid = _shift_anchors(u0, dx, dy)
+    u1 = _shift_anchors(u0, 2 * dx, 2 * dy)
+    u1["info"] = dict(u1["info"], styleName="Bold")
+    u0 = dict(u0)
+    # the sparse layer holds one glyph without anchors; every anchored glyph is missing from it
+    plain = [n for n, g in u0["glyphs"].items() if not g["anchors"]]
+    if not plain:
+        return []
+    u0["layers"] = {"sparse": {plain[0]: dict(u0["glyphs"][plain[0]], anchors=[])}}
+    fam = {"axes": [{"name": "Weight", "tag": "wght", "min": 0, "default": 0, "max": 8}],
+           "masters": [{"loc": {"Weight": 0}, "ufo": u0, "name": "M0"}, {"loc": {"Weight": 4}, "layer": "sparse", "of": 0, "name": "Sparse"},
+                       {"loc": {"Weight": 8}, "ufo": u1, "name": "M1"}]}
+    ds = dsbuild.build_designspace(fam, case["lib"])
+    fn = ufo2ft.compileVariableTTF if case["flavor"] == "tt" else ufo2ft.compileVariableCFF2
+    vf = fn(ds, useProductionNames=False)
+    data, _ = project.save_reload(vf)
+    recs = []
+    for loc, u in ((0, case["ufo"]), (4, umid), (8, u1)):
+        inst = instancer.instantiateVariableFont(TTFont(io.BytesIO(data)), {"wght": loc}, inplace=False)
+        _, f2 = project.save_reload(inst)
+        rec = layout_exec.gdefcurs_record(dict(case, ufo=u), f2, f"{case['cid']}@{loc}")
+        rec["orderFree"] = loc != 0
+        recs.append(rec)
+    return recs
+
+
 def execute(case):
+    if case.get("sparseVar"):
+        return _execute_sparse_var(case)
     if case.get("ds"):
         return _execute_ds(case)
     if case.get("then"):
